@@ -165,6 +165,7 @@ def judge(case, real):
     """-> None | ('taint', idx) | (idx, signature, what)"""
     com = {'P': 0, 'S': 0}
     vis = dict(com)
+    base = dict(com)    # the connections' current view of the committed data (moves at boundaries and at open)
     dirty = set()       # modified since the last savepoint: must be marked changed
     touched = set()     # modified in this transaction: their connections are joined, commit writes them
     unsure = False      # after a rollback the oracle does not say which connections are still joined
@@ -211,7 +212,11 @@ def judge(case, real):
             if n >= len(sps) or sps[n] is None:
                 exp = 'err:InvalidSavepoint'
             else:
-                vis, touched, dirty = dict(sps[n][0]), set(sps[n][1]), set()
+                # the rollback restores what the transaction had CHANGED by then; an object it had not changed
+                # shows the connection's current view (which a close + reopen in between has moved)
+                touched = set(sps[n][1])
+                vis = {x: (sps[n][0][x] if x in touched else base[x]) for x in base}
+                dirty = set()
                 unsure = True
                 for m in range(n + 1, len(sps)):
                     sps[m] = None
@@ -228,11 +233,13 @@ def judge(case, real):
                     failed = set(touched)
                 else:                       # (the harness aborts at once)
                     vis, dirty, touched, stale, unsure = dict(com), set(), set(), False, False
+                    base = dict(com)
             else:
                 exp = 'ok'
                 if not closed:
                     com.update({x: vis[x] for x in touched})
                     vis, stale = dict(com), False
+                    base = dict(com)
                 dirty, touched, unsure = set(), set(), False
         elif k == 'closeP':
             if unsure:
@@ -250,11 +257,13 @@ def judge(case, real):
             closed = False
             damaged = False
             vis = dict(com)
+            base = dict(com)
             stale = False
         elif k == 'abort':
             exp = 'ok'
             if not closed:
                 vis, stale = dict(com), False
+                base = dict(com)
             dirty, touched, sps, unsure, failed = set(), set(), [], False, None
         elif k in ('peekP', 'peekS'):
             exp = 'v=%d' % com[k[-1]]
